@@ -92,6 +92,11 @@ pub enum Item {
 pub struct Case {
     pub items: Vec<Item>,
     pub as_file: bool,
+    /// `sh -i -c ...`: a redirection error on a special built-in does not end
+    /// an interactive shell, so failing redirections on `exec`, `eval` and `:`
+    /// occur at any position; the shell's descriptor for the terminal sits at 10
+    #[serde(default)]
+    pub interactive: bool,
 }
 
 const EXISTING: [&str; 2] = ["e1", "e2"];
@@ -170,6 +175,7 @@ fn gen_redir(rng: &mut Rng, word: &mut u32, as_file: bool) -> Redir {
 
 pub fn generate(rng: &mut Rng, tier: Tier) -> Case {
     let as_file = rng.bool();
+    let interactive = !as_file && rng.below(3) == 0;
     let n = rng.range(
         2,
         match tier {
@@ -218,8 +224,8 @@ pub fn generate(rng: &mut Rng, tier: Tier) -> Case {
             Kind::Empty | Kind::Exec => rng.range(1, 3),
             _ => rng.range(0, 4),
         };
-        let mut redirs: Vec<Redir> = (0..nr).map(|_| gen_redir(rng, &mut word, as_file)).collect();
-        if matches!(kind, Kind::Exec | Kind::Eval | Kind::Colon) && !last || kind == Kind::ExecCmd {
+        let mut redirs: Vec<Redir> = (0..nr).map(|_| gen_redir(rng, &mut word, as_file || interactive)).collect();
+        if matches!(kind, Kind::Exec | Kind::Eval | Kind::Colon) && !last && !interactive || kind == Kind::ExecCmd {
             // a failing redirection on a special built-in makes the shell exit;
             // keep those for the final command and use benign operands here
             for r in &mut redirs {
@@ -278,7 +284,7 @@ pub fn generate(rng: &mut Rng, tier: Tier) -> Case {
         }
         items.push(Item::Cmd { kind, ops, redirs });
     }
-    Case { items, as_file }
+    Case { items, as_file, interactive }
 }
 
 // ------------------------------------------------------------------ rendering
@@ -407,6 +413,7 @@ struct Model {
     std: [Vec<u8>; 3],
     anon: Vec<Vec<u8>>,
     noclobber: bool,
+    interactive: bool,
 }
 
 /// What the model predicts for one command.
@@ -686,7 +693,7 @@ impl Model {
         if !ok {
             // (the status of a pipeline is that of its last stage)
             e.status_zero = kind == Kind::PipeFirst;
-            e.exits = matches!(kind, Kind::Exec | Kind::Eval | Kind::Colon);
+            e.exits = matches!(kind, Kind::Exec | Kind::Eval | Kind::Colon) && !self.interactive;
             e.after = self.fds.clone();
             return e;
         }
@@ -728,7 +735,8 @@ pub struct Expect {
 }
 
 pub fn expect(c: &Case) -> Expect {
-    let mut m = Model::new(c.as_file);
+    let mut m = Model::new(c.as_file || c.interactive);
+    m.interactive = c.interactive;
     let mut cmds = Vec::new();
     for item in &c.items {
         match item {
@@ -1114,6 +1122,7 @@ fn spec_of(c: &Case) -> ScriptSpec {
         script: render(c),
         dash_c: !c.as_file,
         as_file: c.as_file,
+        options: if c.interactive { vec!["-i".into()] } else { Vec::new() },
         files: {
             let mut files = vec![
                 ("/work/e1".into(), E1.to_vec(), 0o644),
@@ -1206,7 +1215,7 @@ impl Prop for C09 {
         "fault_enumeration"
     }
     fn rule(&self) -> String {
-        "Seeded programs of 2-9 commands; each command is one of 12 kinds (regular built-in, function, brace group, if, for, subshell, eval, command, not-found, redirection-only, exec, `:`; further kinds added later: case, while, function definition with redirections, first and last pipeline stage, command substitution, built-in / function with an assignment prefix, the `.` built-in, and `exec` with a command operand that cannot be executed, observed from the EXIT trap of its subshell) with 0-4 redirections over all operators (< > >| >> <> <&n >&n <&- >&- here-document), target descriptors 0-10, operands existing/missing/missing-directory//dev/null, sources open/closed/wrong-mode/shell-internal, noclobber toggled. A POSIX redirection-table model (descriptions with shared offsets, append, truncation) is stepped alongside and predicts the table seen by the command, I/O results through the redirected descriptors, the persistent table, statuses and final files. Faults ENUMERATED per program: the fault-free run counts the K descriptor allocations (all processes) and the program is re-run K times failing exactly the k-th allocation with EMFILE; plus runs under RLIMIT_NOFILE soft limits 3..16 and seeded schedules with preemption. Under faults only the non-relaxable invariants are checked (table restored after every non-exec command, no descriptor >= 10 left after exec, >=10 <=> close-on-exec, termination). A run is distinct non-trivial if it fired a fault or had >= 2 processes, keyed by (script hash, fault position/limit, schedule hash). Every position at which a write to a regular file can fail with ENOSPC is enumerated as well (up to 12/40 per program); `:` commands carry pathname expansions.".into()
+        "Seeded programs of 2-9 commands; each command is one of 12 kinds (regular built-in, function, brace group, if, for, subshell, eval, command, not-found, redirection-only, exec, `:`; further kinds added later: case, while, function definition with redirections, first and last pipeline stage, command substitution, built-in / function with an assignment prefix, the `.` built-in, and `exec` with a command operand that cannot be executed, observed from the EXIT trap of its subshell) with 0-4 redirections over all operators (< > >| >> <> <&n >&n <&- >&- here-document), target descriptors 0-10, operands existing/missing/missing-directory//dev/null, sources open/closed/wrong-mode/shell-internal, noclobber toggled. A POSIX redirection-table model (descriptions with shared offsets, append, truncation) is stepped alongside and predicts the table seen by the command, I/O results through the redirected descriptors, the persistent table, statuses and final files. Faults ENUMERATED per program: the fault-free run counts the K descriptor allocations (all processes) and the program is re-run K times failing exactly the k-th allocation with EMFILE; plus runs under RLIMIT_NOFILE soft limits 3..16 and seeded schedules with preemption. Under faults only the non-relaxable invariants are checked (table restored after every non-exec command, no descriptor >= 10 left after exec, >=10 <=> close-on-exec, termination). A run is distinct non-trivial if it fired a fault or had >= 2 processes, keyed by (script hash, fault position/limit, schedule hash). Every position at which a write to a regular file can fail with ENOSPC is enumerated as well (up to 12/40 per program); `:` commands carry pathname expansions. A third of the `-c` programs run in an interactive shell (`-i`): a redirection error on a special built-in does not end it, so failing redirections on `exec`, `eval` and `:` occur at every position of a program, not only at its end.".into()
     }
     fn assumptions(&self) -> Vec<String> {
         vec![
@@ -1285,7 +1294,10 @@ impl Prop for C09 {
             nofile: 0,
             full: false,
         };
-        for k in 1..=k_max {
+        // (the first two allocations of an interactive shell are its descriptor
+        // for the terminal, before the script starts: without it descriptor 10 is
+        // an ordinary one and the shell opens the terminal again later)
+        for k in (if case.interactive { 3 } else { 1 })..=k_max {
             let cfg = SimConfig {
                 fail_alloc_at: Some(k),
                 fail_alloc_pid: None,
